@@ -131,13 +131,22 @@ func c15NewTx(w *fw.W, s *c15Spec) *c15Tx {
 	return &c15Tx{tx: tx, st: st}
 }
 
+// c15Stale prefixes the values planted in TX.0-9 before a capturing @rx evaluation.
+const c15Stale = "\x00stale"
+
 func (t *c15Tx) close() { fw.Guard(func() { t.tx.Close() }) }
 
 func c15EvalDirect(t *c15Tx, op plugintypes.Operator, s *c15Spec, in string) *c15Obs {
 	if s.Capture {
 		txc := t.st.Variables().TX()
 		for i := 0; i <= 9; i++ {
-			txc.Remove(strconv.Itoa(i))
+			if s.Op == "rx" {
+				// leftovers of an earlier capturing rule of the same transaction: a group that does not take part in
+				// this match has to be stored as empty, not left as it was
+				txc.Set(strconv.Itoa(i), []string{c15Stale + strconv.Itoa(i)})
+			} else {
+				txc.Remove(strconv.Itoa(i))
+			}
 		}
 	}
 	o := &c15Obs{}
@@ -261,6 +270,9 @@ func c15JudgeCaptures(w *fw.W, prefix string, c *c15Case, want bool, caps map[in
 			exp := ""
 			if i < len(m) {
 				exp = m[i]
+			} else if strings.HasPrefix(caps[i], c15Stale) {
+				// indices beyond the pattern's groups (or any index when nothing matched): leftovers may stay, that is not pinned
+				continue
 			}
 			if caps[i] != exp {
 				cls := prefix + "rx:capture:tx" + strconv.Itoa(i)
